@@ -547,6 +547,8 @@ class ExprMixin:
             return z3.Or([self.eq(item, k) for k, _ in cont.entries] + [z3.BoolVal(False)])
         if isinstance(cont, VSet):
             return z3.Select(cont.arr, pack(item, cont.elem)[0])
+        if isinstance(cont, VMap) and isinstance(item, VNone) and isinstance(cont.k, Ref):
+            return z3.BoolVal(False)        # None is never a key of a map whose keys are objects
         if isinstance(cont, VMap):
             return z3.Select(cont.present, self.map_key(cont, item))
         if isinstance(cont, VSeq):
